@@ -146,3 +146,30 @@ pub use wtransport_proto as proto;
 pub use quinn;
 
 mod driver;
+
+/// Observability hooks for the runtime-verification harness (feature `verif-hooks`).
+///
+/// Counters are for coverage measurement only; the re-exported driver primitives let their
+/// set-once / all-readers-agree semantics be exercised directly.
+#[cfg(feature = "verif-hooks")]
+#[doc(hidden)]
+pub mod verif {
+    use std::sync::atomic::AtomicU64;
+
+    pub use crate::driver::utils::bichannel;
+    pub use crate::driver::utils::shared_result;
+    pub use crate::driver::utils::BiChannelEndpoint;
+    pub use crate::driver::utils::SendError;
+    pub use crate::driver::utils::SharedResultGet;
+    pub use crate::driver::utils::SharedResultSet;
+    pub use crate::driver::utils::TrySendError;
+
+    /// Iterations of the driver worker select loop (all connections).
+    pub static DRIVER_LOOP_ITERATIONS: AtomicU64 = AtomicU64::new(0);
+
+    /// Control/session frame reads resumed from bytes consumed by a cancelled read.
+    pub static RESUMED_FRAME_READS: AtomicU64 = AtomicU64::new(0);
+
+    /// Peer-initiated streams handed to a per-stream task.
+    pub static STREAMS_SPAWNED: AtomicU64 = AtomicU64::new(0);
+}
